@@ -123,6 +123,85 @@ impl<A: ModelDesc, B: ModelDesc, C: ModelDesc> ModelDesc for (A, B, C) {
     }
 }
 
+// derived queries (`#[derive(Query)]`, macros/src/query.rs).  A derived struct is the tuple of its
+// fields; a derived enum yields the first variant all of whose fields match, which is
+// `Or<V1, Without<V2, V1>>` with `Both` impossible — that is the shape handed to the model.
+
+#[derive(hecs::Query)]
+pub struct DStruct<'a> {
+    a: &'a A,
+    b: &'a mut B,
+}
+impl Canon for DStruct<'_> {
+    fn canon(&self) -> String {
+        (self.a, &*self.b).canon()
+    }
+}
+impl ModelDesc for DStruct<'static> {
+    fn desc() -> String {
+        <(&'static A, &'static mut B) as ModelDesc>::desc()
+    }
+}
+
+#[derive(hecs::Query)]
+pub struct DTuple<'a>(&'a A, Option<&'a B>, Or<&'a C, &'a mut D>);
+impl Canon for DTuple<'_> {
+    fn canon(&self) -> String {
+        let third: Or<&C, &D> = match &self.2 {
+            Or::Left(c) => Or::Left(*c),
+            Or::Right(d) => Or::Right(&**d),
+            Or::Both(c, d) => Or::Both(*c, &**d),
+        };
+        (self.0, self.1, third).canon()
+    }
+}
+impl ModelDesc for DTuple<'static> {
+    fn desc() -> String {
+        <(&'static A, Option<&'static B>, Or<&'static C, &'static mut D>) as ModelDesc>::desc()
+    }
+}
+
+#[derive(hecs::Query)]
+pub enum DEnum<'a> {
+    One(&'a A),
+    Two(&'a mut B),
+}
+impl Canon for DEnum<'_> {
+    fn canon(&self) -> String {
+        match self {
+            DEnum::One(a) => format!("L({})", a.canon()),
+            DEnum::Two(b) => format!("R({})", b.canon()),
+        }
+    }
+}
+impl ModelDesc for DEnum<'static> {
+    fn desc() -> String {
+        <Or<&'static A, Without<&'static mut B, &'static A>> as ModelDesc>::desc()
+    }
+}
+
+#[derive(hecs::Query)]
+pub enum DEnum3<'a> {
+    Both { a: &'a A, b: &'a B },
+    Third(&'a mut C),
+    Rest,
+}
+impl Canon for DEnum3<'_> {
+    fn canon(&self) -> String {
+        match self {
+            DEnum3::Both { a, b } => format!("L({})", (*a, *b).canon()),
+            DEnum3::Third(c) => format!("R(L({}))", c.canon()),
+            DEnum3::Rest => "R(R(()))".into(),
+        }
+    }
+}
+impl ModelDesc for DEnum3<'static> {
+    fn desc() -> String {
+        type V1 = (&'static A, &'static B);
+        <Or<V1, Without<Or<&'static mut C, Without<(), &'static mut C>>, V1>> as ModelDesc>::desc()
+    }
+}
+
 #[macro_export]
 macro_rules! with_query {
     ($k:expr, $Q:ident, $body:expr) => {{
@@ -167,11 +246,17 @@ macro_rules! with_query {
             35 => { type $Q = Without<(), &'static A>; $body }
             36 => { type $Q = (&'static mut D, Option<&'static E>, Satisfies<&'static L>); $body }
             37 => { type $Q = Or<Satisfies<&'static A>, &'static B>; $body }
+            38 => { type $Q = $crate::query_engine::DStruct<'static>; $body }
+            39 => { type $Q = $crate::query_engine::DTuple<'static>; $body }
+            40 => { type $Q = $crate::query_engine::DEnum<'static>; $body }
+            41 => { type $Q = $crate::query_engine::DEnum3<'static>; $body }
+            42 => { type $Q = (&'static C, $crate::query_engine::DEnum<'static>); $body }
+            43 => { type $Q = Option<$crate::query_engine::DStruct<'static>>; $body }
             _ => panic!("harness: bad query menu index"),
         }
     }};
 }
-pub const NQUERIES: usize = 38;
+pub const NQUERIES: usize = 44;
 
 pub fn query_desc(k: usize) -> String {
     with_query!(k, QT, <QT as ModelDesc>::desc())
